@@ -634,15 +634,17 @@ def poplist (s : MDict K V) (k : K) (dflt : Option V) : Res (MDict K V) (List V 
     | none => (s', .error .KeyError)
   | (s', .error e) => (s', .error e)
 
-/-- `modict.pop(key[, default], index=-1)` -/
+/-- `modict.pop(key[, default], index=-1)` (fix D39g): the indexed element is read first, only then the key removed -/
 def pop (s : MDict K V) (k : K) (dflt : Option V) (index : Int) : Res (MDict K V) V :=
-  match poplist s k dflt with
-  | (s', .ok (.inl l)) =>
+  match dget s.d k with
+  | none =>
+    match dflt with
+    | some dv => (s, .ok dv)
+    | none => (s, .error .KeyError)
+  | some l =>
     match pyIndex l index with
-    | some v => (s', .ok v)
-    | none => (s', .error .IndexError)
-  | (s', .ok (.inr dv)) => (s', .ok dv)
-  | (s', .error e) => (s', .error e)
+    | none => (s, .error .IndexError)
+    | some v => ((OD.pop s k none).1, .ok v)
 
 /-- `modict.poplistitem(last)` (fix D23) -/
 def poplistitem (s : MDict K V) (last : Bool) : Res (MDict K V) (K × List V) :=
@@ -653,14 +655,17 @@ def poplistitem (s : MDict K V) (last : Bool) : Res (MDict K V) (K × List V) :=
     | (s', .ok l) => (s', .ok (k, l))
     | (s', .error e) => (s', .error e)
 
-/-- `modict.popitem(last, index)` (fix D23) -/
+/-- `modict.popitem(last, index)` (fixes D23, D39g): the indexed element is read first, only then the key removed -/
 def popitem (s : MDict K V) (last : Bool) (index : Int) : Res (MDict K V) (K × V) :=
-  match poplistitem s last with
-  | (s', .ok (k, l)) =>
-    match pyIndex l index with
-    | some v => (s', .ok (k, v))
-    | none => (s', .error .IndexError)
-  | (s', .error e) => (s', .error e)
+  match (if last then s.keys.getLast? else s.keys.head?) with
+  | none => (s, .error .KeyError)
+  | some k =>
+    match dget s.d k with
+    | none => (s, .error .KeyError)
+    | some l =>
+      match pyIndex l index with
+      | none => (s, .error .IndexError)
+      | some v => ((OD.pop s k none).1, .ok (k, v))
 
 /-- `modict.fromkeys(seq, default)` -/
 def fromkeys (seq : List K) (dflt : V) : MDict K V := init (seq.map (fun k => (k, dflt)))
